@@ -71,7 +71,7 @@ def describe(pattern, x, newobj):
     import einx._src.tracer as tracer
     from einx._src.tracer.optimizer._util import _skip_id
     name = type(pattern).__name__
-    rec = {"rule": name, "perm": [], "perm1": [], "newperm": [], "inshape": [], "shape": [], "newshape": [], "n": 0}
+    rec = {"rule": name, "perm": [], "perm1": [], "newperm": [], "inshape": [], "shape": [], "newshape": [], "n": 0, "asserts": 0, "exact": 1}
     Call = tracer.signature.python.Call
 
     def is_call_of(t, fn):
@@ -101,6 +101,35 @@ def describe(pattern, x, newobj):
         rec.update(rule="SkipBroadcastTo.nop", shape=_seq(x.origin.args[1]), inshape=_shape(inp))
     elif name == "SkipConcatenate":
         rec.update(rule="SkipConcatenate.single", n=len(x.origin.args[0]))
+    elif name == "InlineGraph":
+        # what is being thrown away: the graph lambda inputs: output.  It is a trivial wrapper iff its output is one call
+        # whose arguments ARE the graph inputs (same objects, same order; casts are type annotations) and nothing else
+        # - in particular no assertion - hangs on the path
+        def strip_casts(v):
+            while isinstance(v, tracer.Tracer) and isinstance(v.origin, tracer.Cast) and isinstance(v.origin.input, tracer.Tracer):
+                v = v.origin.input
+            return v
+        asserts = 0
+        seen = set()
+        stack = [x.output]
+        call = None
+        while stack:
+            v = stack.pop()
+            if isinstance(v, (list, tuple)):
+                stack.extend(v)
+            elif isinstance(v, dict):
+                stack.extend(v.values())
+            elif isinstance(v, tracer.Tracer) and v.origin is not None and id(v.origin) not in seen:
+                seen.add(id(v.origin))
+                if isinstance(v.origin, tracer.signature.python.Assert):
+                    asserts += 1
+                stack.extend(v.origin.inputs)
+        out = strip_casts(x.output) if isinstance(x.output, tracer.Tracer) else None
+        exact = 0
+        if out is not None and isinstance(out.origin, Call) and len(out.origin.kwargs) == 0:
+            args = [strip_casts(a) for a in out.origin.args]
+            exact = int([id(a) for a in args] == [id(i) for i in x.inputs])
+        rec.update(rule="InlineGraph", asserts=asserts, exact=exact, n=len(x.inputs))
     return rec
 
 
